@@ -675,3 +675,22 @@ func Logf(format string, a ...any) {
 // the same entry label, so that task ordinals do not depend on real-time
 // arrival order.
 func (s *Sim) Settle() { synctest.Wait() }
+
+// SleepIdle is a fake-clock sleep that is never cut short by the scheduler's
+// "advance the clock" choice: the clock only reaches its end once every other
+// task is blocked, i.e. the caller resumes after the rest of the system has
+// gone quiet.
+func SleepIdle(d time.Duration) {
+	s := cur.Load()
+	if s == nil {
+		return
+	}
+	id := goid()
+	s.mu.Lock()
+	if t := s.tasks[id]; t != nil {
+		t.state = Sleeping
+	}
+	s.mu.Unlock()
+	time.Sleep(d)
+	Yield("woke-idle")
+}
